@@ -24,7 +24,9 @@ var synBare = []string{"a", "b", "c", "x1", "_y", "col", "T", "U", "where", "asc
 	// words that are enumerations or keywords in the Kusto dialect this language follows
 	"visible", "hidden", "linear", "log", "none", "axes", "panels", "stacked", "unstacked", "default", "innerunique", "leftouter", "limit", "filter", "order", "sort", "extend", "summarize",
 	// the same words in other letter cases
-	"NOT", "IsNull", "COUNT", "Where", "TRUE", "Null", "K", "k"}
+	"NOT", "IsNull", "COUNT", "Where", "TRUE", "Null", "K", "k",
+	// the four keywords in other letter cases are ordinary names
+	"Or", "OR", "And", "AND", "By", "BY", "In", "IN", "oR", "bY"}
 var synQuoted = []string{"q", "a b", "x`y", "`a", "a`", "`b`", "``", "we ird\"", "by", "and", "é", "1", "a.b", "sel'ect", "/*", "--", ";", "\\", "let", "in", "$left", "count()", "where"}
 var synFuncs = []string{"f", "g", "sum", "min", "max", "not", "isnull", "isnotnull", "iff", "iif", "strcat", "tolower", "toupper", "now", "count", "countif", "coalesce", "asc", "where",
 	"NOT", "ISNULL", "IsNull", "STRCAT", "IFF", "COUNT", "ToLower", "NOW", "CountIf"}
